@@ -199,8 +199,11 @@ impl SchedHooks for Sched {
     }
 }
 
+/// The picture as a caller sees it: the planar buffers of the (oriented, region-sized) render.  The raw
+/// grids behind it may legitimately cover different areas depending on who asked for the frame first
+/// (a frame blended earlier for a patch source caches only that area), so they are not compared.
 fn bits_of(r: &jxl_oxide::Render) -> Bits {
-    render_grids(r).iter().map(grid_bits).collect()
+    r.image_planar().iter().map(|p| (p.width(), p.height(), p.buf().iter().map(|v| v.to_bits()).collect())).collect()
 }
 
 /// Serialises scenarios within one process (the hooks are process-global).
@@ -253,6 +256,9 @@ impl Check for C20 {
             let pos = header_len + 4 + csrc.below(bytes.len() - header_len - 4);
             bytes[pos] ^= 1 << csrc.below(8);
             classes.push("inject:corrupted-byte".into());
+        }
+        if let Ok(p) = std::env::var("VERIF_DUMP") {
+            let _ = std::fs::write(p, &bytes);
         }
         // single-threaded baseline (no hooks installed for this thread: TID is None)
         let open_img = |tracker: AllocTracker| JxlImage::builder().pool(JxlThreadPool::none()).alloc_tracker(tracker).read(std::io::Cursor::new(&bytes[..]));
@@ -363,8 +369,20 @@ impl Check for C20 {
                 match (got, &baseline[k]) {
                     (Ok(g), Ok(w)) => {
                         if g != w {
+                            let mut first = String::new();
+                            for (c, (a, b)) in g.iter().zip(w.iter()).enumerate() {
+                                if (a.0, a.1) != (b.0, b.1) {
+                                    first = format!("channel {c}: size {}x{} vs {}x{}", a.0, a.1, b.0, b.1);
+                                    break;
+                                }
+                                if let Some(i) = a.2.iter().zip(&b.2).position(|(x, y)| x != y) {
+                                    first = format!("channel {c} sample {i}: {} vs {} (bits {:08x} vs {:08x}); {} samples differ", f32::from_bits(a.2[i]), f32::from_bits(b.2[i]), a.2[i], b.2[i], a.2.iter().zip(&b.2).filter(|(x, y)| x != y).count());
+                                    break;
+                                }
+                            }
+                            let detail_first = first;
                             o.nontrivial = true;
-                            o.verdict = Verdict::Fail { sig: "samples-differ".into(), detail: format!("caller {t} call {i} (keyframe {k}): Ok but differs from the single-threaded render; programs={programs:?} schedule={schedule:?} fault_at={fault_at:?}; trace: {}; {desc}", trace()) };
+                            o.verdict = Verdict::Fail { sig: "samples-differ".into(), detail: format!("caller {t} call {i} (keyframe {k}): Ok but differs from the single-threaded render [{detail_first}]; programs={programs:?} schedule={schedule:?} fault_at={fault_at:?}; trace: {}; {desc}", trace()) };
                             return o;
                         }
                     }
